@@ -87,7 +87,9 @@ def obligations(tier, seed):
     obs.append(dict(name='compact/write', kind='cwrite'))
     for (ni, nf) in ((1, 0), (1, 1), (2, 2), (1, 3), (0, 1), (3, 0)) + (((1, 5), (2, 4)) if tier != 'quick' else ()):
         obs.append(dict(name='amount/%d.%d' % (ni, nf), kind='amount', ni=ni, nf=nf))
-    for s in ['0.1,0.002', '1', '', 'abc', '1.', '.5', '-1', '1e3', '0.000000001', '0.12345678', '21000000.00000000', '0.123456780', '0.123456789', '92233720368.54775807', '1,2,3']: obs.append(dict(name='amountlit/' + s, kind='amountlit', s=s))
+    for s in ['0.1,0.002', '1', '', 'abc', '1.', '.5', '-1', '1e3', '0.000000001', '0.12345678', '21000000.00000000', '0.123456780', '0.123456789', '92233720368.54775807', '1,2,3',
+              # long amount strings (15 / 16 / 17+ characters: a fixed copy buffer cuts them - seed C13-4)
+              '123456.12345678', '1234567.12345678', '20999999.99999999', '1234567.123456789', '-1234567.1234567', '000000001.00000001', '12345678901.5', '1234567.12345678,0.00000001']: obs.append(dict(name='amountlit/' + s, kind='amountlit', s=s))
     obs.append(dict(name='hex/shape1', kind='hex', shape=shapes(tier)[1], si=1))
     return obs
 
